@@ -188,12 +188,12 @@ theorem replayChain_tip (orig : Nat → Author) (base : List Nat) (news : List (
       | nil => simp [replayChain] at hr
       | cons d ds => simp [List.getLast?_cons]
 
-structure ReplayOK (root : List Nat) (sp : Spec) (drop : Nat) (mid : List ((List Nat × List Nat) × Note))
+structure ReplayOK (root : List Nat) (sp : Spec) (drop : Nat) (mid : List ((List Nat × List Nat) × Note)) (k : Nat)
     (srcLog : List (List Nat × List Nat)) (srcNotes : List Note) (news : List (List Nat)) : Prop where
   depth : drop ≤ sp.st.log.length
   midHist : HistOK sp.g root (mid.map (·.1) ++ sp.st.log.drop drop) (mid.map (·.2) ++ sp.st.notes.drop drop)
   midSeen : ∀ m ∈ mid, ∀ y ∈ m.1.1, y ∈ sp.seen
-  newsOK : NewsOK (blame srcLog srcNotes) sp.g (tipOf root (mid.map (·.1) ++ sp.st.log.drop drop)) news
+  newsOK : NewsOK (replayCredit k srcLog srcNotes) sp.g (tipOf root (mid.map (·.1) ++ sp.st.log.drop drop)) news
   newsSeen : ∀ c ∈ news, ∀ y ∈ c, y ∈ sp.seen
 
 theorem NewsOK.last_nodup {orig g} : ∀ (news : List (List Nat)) (base : List Nat), NewsOK orig g base news →
@@ -205,15 +205,15 @@ theorem NewsOK.last_nodup {orig g} : ∀ (news : List (List Nat)) (base : List N
     | nil => simpa using h.1
     | cons d ds => simpa [List.getLast?_cons] using this
 
-theorem RInv.replay {root sp} (h : RInv root sp) (drop : Nat) (mid : List ((List Nat × List Nat) × Note))
+theorem RInv.replay {root sp} (h : RInv root sp) (drop : Nat) (mid : List ((List Nat × List Nat) × Note)) (k : Nat)
     (srcLog : List (List Nat × List Nat)) (srcNotes : List Note) (news : List (List Nat))
-    (hok : ReplayOK root sp drop mid srcLog srcNotes news) :
-    RInv root ⟨replayStep drop mid srcLog srcNotes news sp.st, sp.g, sp.seen⟩ := by
+    (hok : ReplayOK root sp drop mid k srcLog srcNotes news) :
+    RInv root ⟨replayStep drop mid k srcLog srcNotes news sp.st, sp.g, sp.seen⟩ := by
   obtain ⟨ul, un, uh, _, _, _, _⟩ := undoN_spec drop sp.st h.hist h.head hok.depth
   -- the base the new commits sit on
   have hbase : midTip mid (undoN drop sp.st).head = tipOf root (mid.map (·.1) ++ sp.st.log.drop drop) := by
     rw [uh]; exact midTip_tipOf root mid _
-  obtain ⟨hc1, hc2⟩ := replayChain_hist (blame srcLog srcNotes) h.rootHuman news _ _ _ hok.midHist rfl hok.newsOK
+  obtain ⟨hc1, hc2⟩ := replayChain_hist (replayCredit k srcLog srcNotes) h.rootHuman news _ _ _ hok.midHist rfl hok.newsOK
   have htipnd : ((news.getLast?).getD (tipOf root (mid.map (·.1) ++ sp.st.log.drop drop))).Nodup :=
     NewsOK.last_nodup news _ hok.newsOK (hok.midHist.tip_nodup h.rootNodup)
   have htipseen : ∀ y ∈ (news.getLast?).getD (tipOf root (mid.map (·.1) ++ sp.st.log.drop drop)), y ∈ sp.seen := by
@@ -239,42 +239,42 @@ theorem RInv.replay {root sp} (h : RInv root sp) (drop : Nat) (mid : List ((List
         obtain ⟨⟨c, p⟩, n⟩ := m
         exact hok.midSeen ((c, p), n) (by rw [hm]; simp) y hy
   -- unfold the step
-  have htip : (replayStep drop mid srcLog srcNotes news sp.st).head =
+  have htip : (replayStep drop mid k srcLog srcNotes news sp.st).head =
       (news.getLast?).getD (tipOf root (mid.map (·.1) ++ sp.st.log.drop drop)) := by
     simp only [replayStep]
     rw [hbase]
     exact replayChain_tip _ _ _
-  have hwork : (replayStep drop mid srcLog srcNotes news sp.st).work = (replayStep drop mid srcLog srcNotes news sp.st).head := rfl
-  have hlog : (replayStep drop mid srcLog srcNotes news sp.st).log =
-      (replayChain (blame srcLog srcNotes) (tipOf root (mid.map (·.1) ++ sp.st.log.drop drop)) news).map (·.1) ++
+  have hwork : (replayStep drop mid k srcLog srcNotes news sp.st).work = (replayStep drop mid k srcLog srcNotes news sp.st).head := rfl
+  have hlog : (replayStep drop mid k srcLog srcNotes news sp.st).log =
+      (replayChain (replayCredit k srcLog srcNotes) (tipOf root (mid.map (·.1) ++ sp.st.log.drop drop)) news).map (·.1) ++
         (mid.map (·.1) ++ sp.st.log.drop drop) := by
     simp only [replayStep]; rw [hbase, ul]
-  have hnotes : (replayStep drop mid srcLog srcNotes news sp.st).notes =
-      (replayChain (blame srcLog srcNotes) (tipOf root (mid.map (·.1) ++ sp.st.log.drop drop)) news).map (·.2) ++
+  have hnotes : (replayStep drop mid k srcLog srcNotes news sp.st).notes =
+      (replayChain (replayCredit k srcLog srcNotes) (tipOf root (mid.map (·.1) ++ sp.st.log.drop drop)) news).map (·.2) ++
         (mid.map (·.2) ++ sp.st.notes.drop drop) := by
     simp only [replayStep]; rw [hbase, un]
   refine ⟨⟨?_, ?_, ?_, by intro e he; simp [replayStep] at he, ?_⟩, ?_, ?_, h.rootHuman, h.rootSeen, h.rootNodup, ?_⟩
-  · show (replayStep drop mid srcLog srcNotes news sp.st).work.Nodup
+  · show (replayStep drop mid k srcLog srcNotes news sp.st).work.Nodup
     rw [hwork, htip]; exact htipnd
-  · show ∀ y ∈ (replayStep drop mid srcLog srcNotes news sp.st).work, y ∈ sp.seen
+  · show ∀ y ∈ (replayStep drop mid k srcLog srcNotes news sp.st).work, y ∈ sp.seen
     rw [hwork, htip]; exact htipseen
-  · show ∀ y ∈ (replayStep drop mid srcLog srcNotes news sp.st).head, y ∈ sp.seen
+  · show ∀ y ∈ (replayStep drop mid k srcLog srcNotes news sp.st).head, y ∈ sp.seen
     rw [htip]; exact htipseen
   · show PendingOK _
     left
     refine ⟨rfl, ?_⟩
     intro y hy
-    have hy' : y ∈ (replayStep drop mid srcLog srcNotes news sp.st).head := hy
+    have hy' : y ∈ (replayStep drop mid k srcLog srcNotes news sp.st).head := hy
     simp [target, hy']
-  · show HistOK sp.g root (replayStep drop mid srcLog srcNotes news sp.st).log (replayStep drop mid srcLog srcNotes news sp.st).notes
+  · show HistOK sp.g root (replayStep drop mid k srcLog srcNotes news sp.st).log (replayStep drop mid k srcLog srcNotes news sp.st).notes
     rw [hlog, hnotes]; exact hc1
-  · show (replayStep drop mid srcLog srcNotes news sp.st).head = tipOf root (replayStep drop mid srcLog srcNotes news sp.st).log
+  · show (replayStep drop mid k srcLog srcNotes news sp.st).head = tipOf root (replayStep drop mid k srcLog srcNotes news sp.st).log
     rw [htip, hlog, hc2]
   · intro cp hcp y hy
     rw [hlog] at hcp
     rcases List.mem_append.1 hcp with e | e
     · -- a new commit: its content is one of `news`
-      have : ∀ (news : List (List Nat)) (base : List Nat), ∀ x ∈ (replayChain (blame srcLog srcNotes) base news).map (·.1),
+      have : ∀ (news : List (List Nat)) (base : List Nat), ∀ x ∈ (replayChain (replayCredit k srcLog srcNotes) base news).map (·.1),
           x.1 ∈ news := by
         intro news
         induction news with
